@@ -112,4 +112,9 @@ impl Grid {
     pub fn done(self) { println!("GRID-DONE grid={} cases={} fails={} skipped={}", self.name, self.cases, self.fails, self.skipped); }
 }
 
-pub fn show(bytes: &[u8]) -> String { format!("{:?}", String::from_utf8_lossy(bytes)) }
+pub fn show(bytes: &[u8]) -> String {
+    if bytes.len() <= 160 { format!("{:?}", String::from_utf8_lossy(bytes)) }
+    else { format!("{:?}...({} bytes)...{:?}", String::from_utf8_lossy(&bytes[..60]), bytes.len(), String::from_utf8_lossy(&bytes[bytes.len() - 40..])) }
+}
+/// a printed line, shortened for messages
+pub fn short(s: &str) -> String { if s.len() <= 160 { s.to_owned() } else { let head: String = s.chars().take(60).collect(); format!("{}...({} bytes)", head, s.len()) } }
